@@ -9,6 +9,7 @@
   covered by the correspondence run and the oracle.
 -/
 import ICal.Lemmas.TzGen
+import ICal.Lemmas.TzGenMore
 namespace ICal.C13
 open ICal.Tz (Obs specAt specEntries specAt_latest specAt_none)
 open ICal.TzGen
@@ -343,6 +344,243 @@ theorem gen_faithful_full_false : ¬ gen_faithful_full := by
   simp at w2
   simp at ho
   omega
+
+/-! ## well-formedness, continued: shape of the generated observances (no assumption on the zone) -/
+
+/-- what `from_tzinfo` returns is the emission of the groups of the segments of the outer loop -/
+private theorem gen_shape {info : Int → Info} {wallOf : Int → Int} {H first last lastWall : Int} {gen : List GenObs}
+    (hgen : fromInfo info wallOf H first last lastWall = some gen) :
+    ∃ segs, outer info wallOf skipSearch H last ((last - first).toNat + 1) first none = some segs ∧
+      gen = (group segs).map (emit lastWall) := by
+  unfold fromInfo at hgen
+  cases hs : outer info wallOf skipSearch H last ((last - first).toNat + 1) first none with
+  | none => rw [hs] at hgen; simp at hgen
+  | some segs =>
+    rw [hs] at hgen
+    simp only [Option.map_some, Option.some.injEq] at hgen
+    exact ⟨segs, rfl, hgen.symm⟩
+
+/-- The grouping key `(offset_from, offset_to, tzname, is_standard)` is unique across the generated
+    observances: the component has exactly one STANDARD/DAYLIGHT sub-component per key, each the
+    emission of a non-empty list of starts. -/
+theorem gen_keys_unique (info : Int → Info) (wallOf : Int → Int) (H first last lastWall : Int)
+    (gen : List GenObs) (hgen : fromInfo info wallOf H first last lastWall = some gen) :
+    ∃ groups : List (Key × List Int), gen = groups.map (emit lastWall) ∧ (groups.map (·.1)).Nodup ∧
+      ∀ q ∈ groups, q.2 ≠ [] := by
+  obtain ⟨segs, _, hg⟩ := gen_shape hgen
+  obtain ⟨h1, h2, _⟩ := group_spec segs
+  exact ⟨group segs, hg, h1, fun q hq => (h2 q hq).2⟩
+
+/-- Within every generated observance the onsets are strictly increasing, DTSTART first: DTSTART is
+    the earliest start of its group (also when it was moved to midnight of `last_date`) and the RDATEs
+    follow in time order without repetition — for every zone whose wall time grows with the clock
+    while the offset is the same (true of both clocks, see `gen_onsets_increasing_zone`). -/
+theorem gen_onsets_increasing (info : Int → Info) (wallOf : Int → Int) (H first last lastWall : Int)
+    (gen : List GenObs)
+    (hmono : ∀ x y, first ≤ x → x < y → y < last → (info x).off = (info y).off → wallOf x < wallOf y)
+    (hgen : fromInfo info wallOf H first last lastWall = some gen) :
+    ∀ g ∈ gen, (g.dtstart :: g.rdates).Pairwise (· < ·) := by
+  obtain ⟨segs, hs, hg⟩ := gen_shape hgen
+  obtain ⟨i1, i2, _⟩ := outer_inv info wallOf H last _ first none segs hs
+  obtain ⟨_, h2, _⟩ := group_spec segs
+  intro g hgm
+  rw [hg] at hgm
+  obtain ⟨q, hq, rfl⟩ := List.mem_map.mp hgm
+  obtain ⟨hw, hne⟩ := h2 q hq
+  have hsorted : q.2.Pairwise (· < ·) := by
+    rw [hw]
+    unfold walls
+    rw [List.pairwise_map]
+    have hf : (segs.filter fun s => decide (s.key = q.1)).Pairwise (fun a b => a.start < b.start) :=
+      i2.sublist List.filter_sublist
+    refine List.Pairwise.imp_of_mem ?_ hf
+    intro a b ha hb hab
+    obtain ⟨ha1, ha2⟩ := List.mem_filter.mp ha
+    obtain ⟨hb1, hb2⟩ := List.mem_filter.mp hb
+    have hka : a.key = q.1 := by simpa using ha2
+    have hkb : b.key = q.1 := by simpa using hb2
+    obtain ⟨a1, _, a3, _, _, a6⟩ := i1 a ha1
+    obtain ⟨_, b2, b3, _, _, b6⟩ := i1 b hb1
+    have hoff : a.offTo = b.offTo := by
+      have : a.key.offTo = b.key.offTo := by rw [hka, hkb]
+      exact this
+    rw [a6, b6]
+    exact hmono _ _ a1 hab b2 (by rw [← a3, ← b3]; exact hoff)
+  obtain ⟨k, ws⟩ := q
+  cases ws with
+  | nil => exact absurd rfl hne
+  | cons w r => exact (emit_sorted lastWall k w r hsorted).2.2
+
+/-- ... in particular for a zone given by its table, on either clock (pytz: wall = clock + offset,
+    zoneinfo: wall = clock). -/
+theorem gen_onsets_increasing_zone (Z : Zone) (H first last lastWall : Int) (gen : List GenObs)
+    (hgen : fromTzinfo Z H first last lastWall = some gen) :
+    ∀ g ∈ gen, (g.dtstart :: g.rdates).Pairwise (· < ·) := by
+  apply gen_onsets_increasing Z.info Z.wall H first last lastWall gen ?_ hgen
+  intro x y _ hxy _ hoff
+  unfold Zone.wall
+  split
+  · exact hxy
+  · omega
+
+/-- The first generated observance is the one of the window start: TZOFFSETFROM = TZOFFSETTO (the
+    code's convention for "no previous offset"), the zone's offset, name and kind at `first`, no
+    RDATE, and DTSTART = the wall time of `first` (or midnight of `last_date`). -/
+theorem gen_first_observance (info : Int → Info) (wallOf : Int → Int) (H first last lastWall : Int)
+    (gen : List GenObs) (hfl : first < last) (hgen : fromInfo info wallOf H first last lastWall = some gen) :
+    ∃ d rest, gen = ⟨(info first).isStd, (info first).off, (info first).off, (info first).name, d, []⟩ :: rest ∧
+      (d = wallOf first ∨ (d = lastWall ∧ lastWall ≤ wallOf first ∧ wallOf first < lastWall + 86400)) := by
+  obtain ⟨segs, hs, hg⟩ := gen_shape hgen
+  obtain ⟨_, _, i3⟩ := outer_inv info wallOf H last _ first none segs hs
+  have hn : (last - first).toNat + 1 = ((last - first).toNat) + 1 := rfl
+  rcases outer_succ info wallOf H last _ first none segs hs with ⟨h, _⟩ | ⟨_, e, tl, _, _, _, hsegs⟩
+  · exact absurd hfl h
+  · obtain ⟨_, _, hsome⟩ := i3 _ tl hsegs
+    -- no later segment has the key of the first one, so the first group is the single start
+    have hgrp : ∀ (l : List Seg) (k0 : Key) (ws0 : List Int) (g : List (Key × List Int)),
+        (∀ s ∈ l, s.key ≠ k0) →
+        l.foldl (fun g s => addSeg g s.key s.wall) ((k0, ws0) :: g) =
+          (k0, ws0) :: l.foldl (fun g s => addSeg g s.key s.wall) g := by
+      intro l
+      induction l with
+      | nil => intro k0 ws0 g _; rfl
+      | cons s r ih =>
+        intro k0 ws0 g hk
+        have hne : ¬ k0 = s.key := fun e => hk s (by simp) e.symm
+        simp only [List.foldl_cons, addSeg, hne, if_false]
+        exact ih k0 ws0 _ (fun s' hs' => hk s' (List.mem_cons_of_mem _ hs'))
+    have hkey : ∀ s ∈ tl, s.key ≠ (⟨none, (info first).off, (info first).name, (info first).isStd⟩ : Key) := by
+      intro s hs' e
+      have h1 := hsome s hs'
+      have : s.key.offFrom = none := by rw [e]
+      have h2 : s.offFrom = none := this
+      rw [h2] at h1; cases h1
+    have hgroup : group segs = (⟨none, (info first).off, (info first).name, (info first).isStd⟩, [wallOf first]) ::
+        tl.foldl (fun g s => addSeg g s.key s.wall) [] := by
+      rw [hsegs]
+      unfold group
+      simp only [List.foldl_cons, addSeg, Seg.key]
+      exact hgrp tl _ _ [] hkey
+    rw [hg, hgroup, List.map_cons]
+    refine ⟨(if lastWall ≤ wallOf first ∧ wallOf first < lastWall + 86400 then lastWall else wallOf first),
+      List.map (emit lastWall) (tl.foldl (fun g s => addSeg g s.key s.wall) []), ?_, ?_⟩
+    · simp only [emit, listMin, List.erase_cons_head, Option.getD_none]
+      rfl
+    · by_cases hc : lastWall ≤ wallOf first ∧ wallOf first < lastWall + 86400
+      · right; simp [hc]
+      · left; simp [hc]
+
+/-- One onset per iteration of the outer loop: the DTSTARTs and RDATEs of the generated component
+    are as many as the segments the loop found ... -/
+theorem gen_onset_count (info : Int → Info) (wallOf : Int → Int) (H first last lastWall : Int)
+    (gen : List GenObs) (hgen : fromInfo info wallOf H first last lastWall = some gen) :
+    ∃ segs, outer info wallOf skipSearch H last ((last - first).toNat + 1) first none = some segs ∧
+      (gen.map fun g => 1 + g.rdates.length).sum = segs.length := by
+  obtain ⟨segs, hs, hg⟩ := gen_shape hgen
+  refine ⟨segs, hs, ?_⟩
+  obtain ⟨_, h2, _⟩ := group_spec segs
+  rw [hg, List.map_map]
+  have : (group segs).map ((fun g : GenObs => 1 + g.rdates.length) ∘ emit lastWall) =
+      (group segs).map (·.2.length) := by
+    apply List.map_congr_left
+    intro q hq
+    exact emit_count lastWall q (h2 q hq).2
+  rw [this]
+  have := sumLen_group segs []
+  simpa [group] using this
+
+/-- ... and along a chain of visible offset changes that is one (the window start) plus the number
+    of offset changes before `last`: no transition is lost and none is invented. -/
+theorem gen_onset_count_chain (info : Int → Info) (wallOf : Int → Int) (H first last lastWall : Int)
+    (Ts : List Int) (hc : Chain info H last first Ts) (hH : last + maxStep ≤ H) (hfl : first < last)
+    (gen : List GenObs) (hgen : fromInfo info wallOf H first last lastWall = some gen) :
+    (gen.map fun g => 1 + g.rdates.length).sum = 1 + (Ts.filter fun T => decide (T < last)).length := by
+  obtain ⟨segs, hs, hsum⟩ := gen_onset_count info wallOf H first last lastWall gen hgen
+  rw [outer_chain info wallOf H last hH Ts first hc _ none (by omega)] at hs
+  simp only [Option.some.injEq] at hs
+  rw [hsum, ← hs]
+  exact segsOf_length info wallOf H last Ts first none hc hfl
+
+/-! ## generating again -/
+
+/-- Generating again gives the same component from ANY zone object that answers like the source
+    zone at the clock values `from_tzinfo` reads — the window and the look-ahead up to the horizon
+    (`first ≤ x ≤ H`) — and runs on the same clock: `from_tzinfo` depends on nothing else. So the
+    regeneration clause holds exactly as far as the conversion back is faithful there. -/
+theorem regen_same_if_faithful (Z Z' : Zone) (H first last lastWall : Int) (hlast : last ≤ H + 1)
+    (hclock : Z'.wallIsClock = Z.wallIsClock)
+    (hinfo : ∀ x, first ≤ x → x ≤ H → Z'.info x = Z.info x) :
+    fromTzinfo Z' H first last lastWall = fromTzinfo Z H first last lastWall := by
+  unfold fromTzinfo
+  apply fromInfo_congr Z'.info Z.info Z'.wall Z.wall H first last lastWall hinfo ?_ hlast
+  intro x h1 h2
+  unfold Zone.wall
+  rw [hclock, hinfo x h1 (by omega)]
+
+/-- The regeneration clause at full strength on the UTC clock (pytz route): `Z'` is any zone that
+    answers as the RFC 5545 reading of the generated component (which is what the pytz conversion
+    gives, C12 `lookup_is_spec`). FALSE on the code: `regen_shift_witness`. -/
+def regen_full : Prop :=
+  ∀ (Z Z' : Zone), Z.wallIsClock = false → Z'.wallIsClock = false →
+    ∀ (H first last lastWall : Int) (gen : List GenObs), last + maxStep ≤ H →
+      fromTzinfo Z H first last lastWall = some gen →
+      (∀ t, first ≤ t → Reads gen t (Z'.info t)) →
+      fromTzinfo Z' H first last lastWall = some gen
+
+/-- the component generated from `zShift` -/
+def genShift : List GenObs := [⟨true, 3600, 3600, CET, 3600, []⟩, ⟨false, 3600, 7200, CEST, 1007200, []⟩]
+
+/-- the zone the RFC reading of `genShift` describes: the change is at 1 003 600, not at 1 000 000 -/
+def zBack : Zone := ⟨⟨3600, true, CET⟩, [⟨1003600, ⟨7200, false, CEST⟩⟩], false⟩
+
+/-- finding `tzgen-onset-shift`, regeneration part: the converted zone changes an hour late, and
+    generating again moves DTSTART of the DAYLIGHT observance by another hour (1 007 200 → 1 010 800). -/
+theorem regen_shift_witness :
+    fromTzinfo zShift 8529600 0 3000000 3000000 = some genShift ∧
+    (∀ t, 0 ≤ t → Reads genShift t (zBack.info t)) ∧
+    fromTzinfo zBack 8529600 0 3000000 3000000 =
+      some [⟨true, 3600, 3600, CET, 3600, []⟩, ⟨false, 3600, 7200, CEST, 1010800, []⟩] := by
+  refine ⟨onset_shift_witness.1, ?_, by decide +kernel⟩
+  intro t ht
+  have hinfo : zBack.info t = if 1003600 ≤ t then ⟨7200, false, CEST⟩ else ⟨3600, true, CET⟩ := by
+    simp [Zone.info, zBack, infoAt]
+  have hspec : specAt (genShift.map toObs) t =
+      if 1003600 ≤ t then some (1003600, toObs ⟨false, 3600, 7200, CEST, 1007200, []⟩)
+      else some (0, toObs ⟨true, 3600, 3600, CET, 3600, []⟩) := by
+    have he : specEntries (genShift.map toObs) =
+        [(0, toObs ⟨true, 3600, 3600, CET, 3600, []⟩), (1003600, toObs ⟨false, 3600, 7200, CEST, 1007200, []⟩)] := by
+      decide
+    unfold specAt
+    rw [he]
+    by_cases h : (1003600 : Int) ≤ t
+    · simp [ICal.Tz.better, ht, h]
+    · simp [ICal.Tz.better, ht, h]
+  unfold Reads
+  rw [hinfo, hspec]
+  by_cases h : (1003600 : Int) ≤ t
+  · simp only [h, if_true]
+    exact ⟨_, rfl, rfl, rfl, rfl⟩
+  · simp only [h, if_false]
+    exact ⟨_, rfl, rfl, rfl, rfl⟩
+
+theorem regen_full_false : ¬ regen_full := by
+  intro h
+  obtain ⟨w1, w2, w3⟩ := regen_shift_witness
+  have := h zShift zBack rfl rfl 8529600 0 3000000 3000000 genShift (by decide) w1 w2
+  rw [w3] at this
+  revert this
+  decide
+
+/-- non-vacuity of `regen_same_if_faithful`: a table with a redundant row describes the same zone -/
+example : ∀ x, (0 : Int) ≤ x → x ≤ 8529600 →
+    (⟨⟨3600, true, CET⟩, [⟨500000, ⟨3600, true, CET⟩⟩, ⟨1000000, ⟨7200, false, CEST⟩⟩], false⟩ : Zone).info x =
+      zShift.info x := by
+  intro x _ _
+  simp only [Zone.info, zShift, infoAt]
+  by_cases h1 : (500000 : Int) ≤ x <;> by_cases h2 : (1000000 : Int) ≤ x <;> simp [h1, h2] <;> omega
+
+example : (genShift.map fun g => 1 + g.rdates.length).sum = 1 + ([1000000].filter fun T => decide (T < (3000000 : Int))).length := by
+  decide
 
 /-! Non-vacuity: the zone of `onset_shift_witness` has a chain in the sense of the theorems, and the
     applicability check of the driver agrees. -/
